@@ -343,7 +343,7 @@ def default_like(ex, old, ty=None):
 @model("Default::default")
 def m_default(ex, c, args):
     h = type_head(c.selfty)
-    if h in ("Vec", "VecDeque"):
+    if h in ("Vec", "VecDeque", "BTreeSet", "HashSet"):
         return Seq(())
     if h in ("String", "OsString", "PathBuf"):
         return ""
@@ -2107,3 +2107,8 @@ def m_unreachable(ex, c, args):
 @model("hint::black_box", "convert::identity", "hint::must_use")
 def m_identity(ex, c, args):
     return args[0]
+
+
+@model("RangeInclusive::new")
+def m_range_incl_new(ex, c, args):
+    return Adt("RangeInclusive", 0, (args[0], args[1], False))
